@@ -19,7 +19,7 @@ type propDef struct {
 var props = map[string]*propDef{}
 
 // properties whose cases are also answered by the executable Lean model of the code
-var modelProps = map[string]bool{"C05": true, "C13": true}
+var modelProps = map[string]bool{"C05": true, "C13": true, "C06": true, "C07": true, "C08": true, "C18": true}
 
 func init() {
 	props["C01"] = &propDef{gen: genC01, rule: "random valid batches (tiny 0-14 docs under fixed chunk sizes 1-5/1024/1025, block 129-400, chunk 1025-2600), full read-API script vs Lean Spec.build; non-trivial = batch has a repeated field name in a document, a composite location, or a multi-chunk term; distinct by case-body hash"}
@@ -163,7 +163,7 @@ func (e *Engine) runSpecDiff(cases []*Case, reuse bool) []Violation {
 		}
 		if d := firstDiff(outs[i].Lines, spec[c.ID]); d >= 0 {
 			v := Violation{Prop: e.prop, CaseID: c.ID, Kind: "spec-mismatch", Case: c, QueryIx: d}
-			if shrunk < 4 {
+			if shrunk < 2 {
 				shrunk++
 				small := shrinkCase(c, func(x *Case) bool { b, _ := e.mismatches(x, run); return b }, 400)
 				v.Case = small
